@@ -161,6 +161,30 @@ def from_path(x: str) -> bool:
     return True
 
 
+def from_path_after_other(x: str) -> bool:
+    """
+    History of two calls: the same path is first resolved under ANOTHER configuration (VF_CONFIG2), then under CONFIG; the
+    second answer obeys from_path's assertions (a path owned by one configuration is not adopted by the other one).
+    pre: len(x) <= N
+    post: _
+    """
+    p = _cat(PRE, x, SUF)
+    first = Sid(path=p, config=envstr("VF_CONFIG2", "local"))
+    if first and not _degenerate(first) and str(first.path(envstr("VF_CONFIG2", "local"))) != p:
+        return fail("first-config-typed-but-path-differs-from-input")
+    sid = Sid(path=p, config=CONFIG)
+    if not sid:
+        return (sid.type == "" and sid.fields == {}) or fail("untyped-with-fields")
+    if _degenerate(sid):
+        return True
+    back = sid.path(CONFIG)
+    if back is None:
+        return fail("typed-from-path-but-no-path")
+    if str(back) != p:
+        return fail("typed-but-path-differs-from-input")
+    return True
+
+
 def from_path2(x: str, y: str) -> bool:
     """
     Two independent symbolic holes (desynchronised repeated fields, changed separators): same two assertions.
